@@ -1,4 +1,5 @@
 import CppUModel.Proofs.JUnitRun
+import CppUModel.Proofs.FailureCtors
 /-!
 Helper lemmas for C16, part 3: the collector's state after the events of one scripted test (closed
 form) and after the registry loop; which test cases end up in which report.
@@ -8,19 +9,35 @@ namespace JUnit
 open Text (Bytes)
 open OutEv
 
-/-- the first failure a scripted test reports (nothing runs after a `failExit`) -/
-def firstFail (t : TestInfo) : List Act → Option Failure
+/-- the first failure among the events of a test -/
+def evsFirst : List Ev → Option Failure
   | [] => none
-  | .fail f l m :: _ => some (mkFailure t f l m)
-  | .failExit f l m :: _ => some (mkFailure t f l m)
-  | _ :: as => firstFail t as
+  | .failure f :: _ => some f
+  | _ :: es => evsFirst es
+
+/-- the text printed among the events of a test -/
+def evsPrinted : List Ev → Bytes
+  | [] => []
+  | .print x :: es => x ++ evsPrinted es
+  | _ :: es => evsPrinted es
+
+/-- only prints and failures (what a test body and the post-test actions send) -/
+def onlyBody : List Ev → Bool
+  | [] => true
+  | .print _ :: es => onlyBody es
+  | .failure _ :: es => onlyBody es
+  | _ :: _ => false
+
+/-- everything a running test sends between its start and its end: the body, then the plugin's
+    post-test action -/
+def testBodyEvs (t : TestInfo) (acts : List Act) : List Ev := actEvs t acts ++ postEvs t acts
+
+/-- the first failure a scripted test reports: from its body (nothing runs after a `failExit`),
+    else from the post-test action -/
+def firstFail (t : TestInfo) (acts : List Act) : Option Failure := evsFirst (testBodyEvs t acts)
 
 /-- the text a scripted test prints -/
-def printed : List Act → Bytes
-  | [] => []
-  | .print f l x :: as => printText f l x ++ printed as
-  | .failExit _ _ _ :: _ => []
-  | _ :: as => printed as
+def printed (t : TestInfo) (acts : List Act) : Bytes := evsPrinted (testBodyEvs t acts)
 
 def mergeFailure (n : Node) (f : Option Failure) : Node :=
   match n.failure with
@@ -59,51 +76,76 @@ theorem step_failure (s : St) (hc : s.crashed = false) (f : Failure) :
     step s (.failure f) = (onFailure s f, []) := by
   simp [step, hc]
 
-/-- the collector after the body of a test whose node is `n` -/
-theorem acts_state (t : TestInfo) : ∀ (acts : List Act) (s : St) (n : Node) (rest : List Node),
-    s.crashed = false → s.nodesRev = n :: rest →
-    foldEvents step s (actEvs t acts) =
-      ({ s with nodesRev := mergeFailure n (firstFail t acts) :: rest,
-                failureCount := s.failureCount + failInc n (firstFail t acts),
-                stdOutput := s.stdOutput ++ printed acts }, [])
-  | [], s, n, rest, hc, hn => by
-    simp only [actEvs, foldEvents, firstFail, printed, mergeFailure_none, failInc_none]
+/-- the collector after prints and failures of a test whose node is `n` -/
+theorem body_events_state : ∀ (evs : List Ev) (s : St) (n : Node) (rest : List Node),
+    onlyBody evs = true → s.crashed = false → s.nodesRev = n :: rest →
+    foldEvents step s evs =
+      ({ s with nodesRev := mergeFailure n (evsFirst evs) :: rest,
+                failureCount := s.failureCount + failInc n (evsFirst evs),
+                stdOutput := s.stdOutput ++ evsPrinted evs }, [])
+  | [], s, n, rest, _, hc, hn => by
+    simp only [foldEvents, evsFirst, evsPrinted, mergeFailure_none, failInc_none]
     congr 1
     apply St.ext' <;> simp [hn]
-  | .print f l x :: as, s, n, rest, hc, hn => by
-    have ih := acts_state t as { s with stdOutput := s.stdOutput ++ printText f l x } n rest hc hn
-    rw [actEvs, foldEvents_cons_quiet _ _ _ _ (by rw [step_print s hc]), step_print s hc, ih]
+  | .print x :: es, s, n, rest, hb, hc, hn => by
+    have ih := body_events_state es { s with stdOutput := s.stdOutput ++ x } n rest (by simpa [onlyBody] using hb) hc hn
+    rw [foldEvents_cons_quiet _ _ _ _ (by rw [step_print s hc]), step_print s hc, ih]
     congr 1
-    apply St.ext' <;> simp [firstFail, printed, List.append_assoc]
-  | .fail f l m :: as, s, n, rest, hc, hn => by
-    rw [actEvs, foldEvents_cons_quiet _ _ _ _ (by rw [step_failure s hc]), step_failure s hc]
+    apply St.ext' <;> simp [evsFirst, evsPrinted, List.append_assoc]
+  | .failure g :: es, s, n, rest, hb, hc, hn => by
+    have hb' : onlyBody es = true := by simpa [onlyBody] using hb
+    rw [foldEvents_cons_quiet _ _ _ _ (by rw [step_failure s hc]), step_failure s hc]
     cases hf : n.failure with
     | none =>
-      have hs1 : onFailure s (mkFailure t f l m) =
-          { s with failureCount := s.failureCount + 1,
-                   nodesRev := { n with failure := some (mkFailure t f l m) } :: rest } := by
+      have hs1 : onFailure s g =
+          { s with failureCount := s.failureCount + 1, nodesRev := { n with failure := some g } :: rest } := by
         simp [onFailure, hn, hf]
-      have ih := acts_state t as (onFailure s (mkFailure t f l m)) { n with failure := some (mkFailure t f l m) } rest
+      have ih := body_events_state es (onFailure s g) { n with failure := some g } rest hb'
         (by rw [hs1]; exact hc) (by rw [hs1])
       rw [ih, hs1]
       congr 1
-      apply St.ext' <;> simp [firstFail, printed, mergeFailure, failInc, hf]
-    | some g =>
-      have hs1 : onFailure s (mkFailure t f l m) = s := by simp [onFailure, hn, hf]
-      rw [hs1, acts_state t as s n rest hc hn]
+      apply St.ext' <;> simp [evsFirst, evsPrinted, mergeFailure, failInc, hf]
+    | some g' =>
+      have hs1 : onFailure s g = s := by simp [onFailure, hn, hf]
+      rw [hs1, body_events_state es s n rest hb' hc hn]
       congr 1
-      apply St.ext' <;> simp [firstFail, printed, mergeFailure, failInc, hf]
-  | .failExit f l m :: _, s, n, rest, hc, hn => by
-    rw [actEvs, foldEvents_cons_quiet _ _ _ _ (by rw [step_failure s hc]), step_failure s hc]
-    simp only [foldEvents]
-    congr 1
-    cases hf : n.failure with
-    | none => apply St.ext' <;> simp [onFailure, hn, hf, firstFail, printed, mergeFailure, failInc]
-    | some g => apply St.ext' <;> simp [onFailure, hn, hf, firstFail, printed, mergeFailure, failInc]
-  | .checks k :: as, s, n, rest, hc, hn => by
-    simpa [actEvs, firstFail, printed] using acts_state t as s n rest hc hn
-  | .tick k :: as, s, n, rest, hc, hn => by
-    simpa [actEvs, firstFail, printed] using acts_state t as s n rest hc hn
+      apply St.ext' <;> simp [evsFirst, evsPrinted, mergeFailure, failInc, hf]
+  | .testsStarted :: _, _, _, _, hb, _, _ => by simp [onlyBody] at hb
+  | .groupStarted _ :: _, _, _, _, hb, _, _ => by simp [onlyBody] at hb
+  | .testStarted _ :: _, _, _, _, hb, _, _ => by simp [onlyBody] at hb
+  | .testEnded _ _ :: _, _, _, _, hb, _, _ => by simp [onlyBody] at hb
+  | .groupEnded _ :: _, _, _, _, hb, _, _ => by simp [onlyBody] at hb
+  | .testsEnded _ :: _, _, _, _, hb, _, _ => by simp [onlyBody] at hb
+
+theorem onlyBody_append (a b : List Ev) : onlyBody (a ++ b) = (onlyBody a && onlyBody b) := by
+  induction a with
+  | nil => simp [onlyBody]
+  | cons e a ih => cases e <;> simp [onlyBody, ih]
+
+theorem onlyBody_acts (t : TestInfo) : ∀ acts, onlyBody (actEvs t acts) = true
+  | [] => rfl
+  | .print _ _ _ :: as => by simp [actEvs, onlyBody, onlyBody_acts t as]
+  | .fail _ _ _ :: as => by simp [actEvs, onlyBody, onlyBody_acts t as]
+  | .failExit _ _ _ :: _ => by simp [actEvs, onlyBody]
+  | .failMsg _ :: as => by simp [actEvs, onlyBody, onlyBody_acts t as]
+  | .failLoc _ _ :: as => by simp [actEvs, onlyBody, onlyBody_acts t as]
+  | .postFail _ :: as => by simp [actEvs, onlyBody_acts t as]
+  | .checks _ :: as => by simp [actEvs, onlyBody_acts t as]
+  | .tick _ :: as => by simp [actEvs, onlyBody_acts t as]
+
+theorem onlyBody_post (t : TestInfo) : ∀ acts, onlyBody (postEvs t acts) = true
+  | [] => rfl
+  | .postFail _ :: as => by simp [postEvs, onlyBody, onlyBody_post t as]
+  | .print _ _ _ :: as => by simp [postEvs, onlyBody_post t as]
+  | .fail _ _ _ :: as => by simp [postEvs, onlyBody_post t as]
+  | .failExit _ _ _ :: as => by simp [postEvs, onlyBody_post t as]
+  | .failMsg _ :: as => by simp [postEvs, onlyBody_post t as]
+  | .failLoc _ _ :: as => by simp [postEvs, onlyBody_post t as]
+  | .checks _ :: as => by simp [postEvs, onlyBody_post t as]
+  | .tick _ :: as => by simp [postEvs, onlyBody_post t as]
+
+theorem onlyBody_testBody (t : TestInfo) (acts : List Act) : onlyBody (testBodyEvs t acts) = true := by
+  simp [testBodyEvs, onlyBody_append, onlyBody_acts, onlyBody_post]
 
 /-- the node a scripted test leaves in the collector -/
 def scriptNode (sc : Script) (r : R) : Node :=
@@ -115,7 +157,7 @@ def scriptNode (sc : Script) (r : R) : Node :=
     execTime := if sc.info.willRun then actTicks sc.acts else 0
     checkCount := if sc.info.willRun then r.checks + actChecks sc.acts else r.checks }
 
-def scriptPrinted (sc : Script) : Bytes := if sc.info.willRun then printed sc.acts else []
+def scriptPrinted (sc : Script) : Bytes := if sc.info.willRun then printed sc.info sc.acts else []
 
 theorem step_testStarted (s : St) (hc : s.crashed = false) (t : TestInfo) :
     step s (.testStarted t) = (onTestStarted s t, []) := by
@@ -142,16 +184,19 @@ theorem test_state (sc : Script) (r : R) (s : St) (hc : s.crashed = false) :
     congr 1
     apply St.ext' <;> simp [onTestStarted, onTestEnded, newNode, scriptNode, scriptPrinted, hw]
   · simp only [if_true]
+    rw [← List.append_assoc]
+    show foldEvents step s (Ev.testStarted sc.info :: (testBodyEvs sc.info sc.acts ++ [Ev.testEnded _ _])) = _
     rw [foldEvents_cons_quiet _ _ _ _ (by rw [step_testStarted s hc]), step_testStarted s hc, foldEvents_append,
-      acts_state sc.info sc.acts (onTestStarted s sc.info) (newNode sc.info) s.nodesRev hc1 (by simp [onTestStarted])]
+      body_events_state (testBodyEvs sc.info sc.acts) (onTestStarted s sc.info) (newNode sc.info) s.nodesRev
+        (onlyBody_testBody _ _) hc1 (by simp [onTestStarted])]
     simp only [List.nil_append]
     rw [foldEvents_cons_quiet _ _ _ _ (by rw [step_testEnded _ (by simpa using hc1)]),
       step_testEnded _ (by simpa using hc1)]
     simp only [foldEvents]
     congr 1
-    cases hf : firstFail sc.info sc.acts <;>
+    cases hf : evsFirst (testBodyEvs sc.info sc.acts) <;>
       (apply St.ext' <;>
-        simp [onTestStarted, onTestEnded, newNode, scriptNode, scriptPrinted, hw, hf, mergeFailure, failInc])
+        simp [onTestStarted, onTestEnded, newNode, scriptNode, scriptPrinted, firstFail, printed, hw, hf, mergeFailure, failInc])
 
 /-! ## keys: what a report says about a test, and what the script says -/
 
@@ -202,18 +247,21 @@ theorem noGroupEnd_append (a b : List Ev) : noGroupEnd (a ++ b) = (noGroupEnd a 
   | nil => simp [noGroupEnd]
   | cons e a ih => cases e <;> simp [noGroupEnd, ih]
 
-theorem noGroupEnd_acts (t : TestInfo) : ∀ acts, noGroupEnd (actEvs t acts) = true
-  | [] => rfl
-  | .print _ _ _ :: as => by simp [actEvs, noGroupEnd, noGroupEnd_acts t as]
-  | .fail _ _ _ :: as => by simp [actEvs, noGroupEnd, noGroupEnd_acts t as]
-  | .failExit _ _ _ :: _ => by simp [actEvs, noGroupEnd]
-  | .checks _ :: as => by simp [actEvs, noGroupEnd_acts t as]
-  | .tick _ :: as => by simp [actEvs, noGroupEnd_acts t as]
+theorem noGroupEnd_of_onlyBody : ∀ evs, onlyBody evs = true → noGroupEnd evs = true
+  | [], _ => rfl
+  | .print _ :: es, h => by simpa [noGroupEnd] using noGroupEnd_of_onlyBody es (by simpa [onlyBody] using h)
+  | .failure _ :: es, h => by simpa [noGroupEnd] using noGroupEnd_of_onlyBody es (by simpa [onlyBody] using h)
+  | .testsStarted :: _, h => by simp [onlyBody] at h
+  | .groupStarted _ :: _, h => by simp [onlyBody] at h
+  | .testStarted _ :: _, h => by simp [onlyBody] at h
+  | .testEnded _ _ :: _, h => by simp [onlyBody] at h
+  | .groupEnded _ :: _, h => by simp [onlyBody] at h
+  | .testsEnded _ :: _, h => by simp [onlyBody] at h
 
 theorem noGroupEnd_test (sc : Script) (r : R) : noGroupEnd (testEvs sc r) = true := by
   unfold testEvs
   split
-  · simp [noGroupEnd, noGroupEnd_append, noGroupEnd_acts]
+  · simp [noGroupEnd, noGroupEnd_append, noGroupEnd_of_onlyBody _ (onlyBody_acts _ _), noGroupEnd_of_onlyBody _ (onlyBody_post _ _)]
   · simp [noGroupEnd]
 
 theorem noGroupEnd_body (flt : Option Filter) (sc : Script) (r : R) : noGroupEnd (bodyEvs flt sc r) = true := by
